@@ -64,6 +64,10 @@ def run_streams(ctx):
         for k in range(1, 3):
             outdir, meta = ctx.harness("c05", n, seed=ctx.seed + k, name=f"c05-{k}", extra=["--no-exhaustive"])
             ctx.correspond(outdir, nontrivial_tag=nontrivial)
+    # whole programs: every incorrect_standard_library_use diagnostic of generated programs under generated libraries, with range and
+    # message, vs the tree-level model of Selene/Std/Prog.lean — the model `C05_prog_*` lifts this property's theorems to
+    outdir, meta = ctx.harness("stdprog", 60 if ctx.tier == "quick" else 2500)
+    ctx.correspond(outdir, nontrivial_tag=lambda t: any(x in t for x in ("count", "type", "style", "needs-vararg", "not-function")), ignore_spec=lambda item: not item.startswith("[C05]"))
 
 
 def check(ctx):
